@@ -20,7 +20,7 @@ ASSUMPTIONS = [
 ]
 OUTSIDE = ["more than 3 contending tasks, queues longer than 3", "uvloop, trio"]
 MUST_REACH = ["contended", "cancelled-waiter", "wouldblock", "native-cancel-while-owner-not-resumed", "scope-cancel-while-queued",
-              "foreign-release-rejected", "reacquire-rejected", "cleanup-acquire-while-cancelled", "A:handoff-skips-cancelled", "A:release-by-non-owner"]
+              "foreign-release-rejected", "reacquire-rejected", "blocking-reacquire-rejected-with-waiters", "cleanup-acquire-while-cancelled", "A:handoff-skips-cancelled", "A:release-by-non-owner"]
 
 
 async def _idle():
@@ -146,10 +146,13 @@ def units(tier):
     add("B n=2 an", n=2, modes="an", cancel=0)
     add("B n=2 na", n=2, modes="na", cancel=1)
     add("B n=2 intruder", n=2, modes="aa", intruder=True)
+    add("B n=2 pa acquire-in-cancelled-scope", n=2, modes="pa")
+    add("B n=2 pa acquire-in-cancelled-scope fast", n=2, modes="pa", fast=True)
     add("B n=2 ca cleanup-acquire", n=2, modes="ca", cancel=0)
     add("B n=2 ac cleanup-acquire", n=2, modes="ac", cancel=1)
     add("B n=3 aca cleanup-acquire", n=3, modes="aca", cancel=1, T=1)
     add("B n=2 reacquire", n=2, modes="aa", reacquire=True, cancel=1)
+    add("B n=3 reacquire with waiters", n=3, modes="aaa", reacquire=True, T=1, J=0)
     # three tasks
     for cancel in (0, 1, 2):
         for native in (False, True):
